@@ -46,6 +46,14 @@ claimed = {
    text="Deductive proof on the real ChannelMapping type: average == ceil(larger/smaller) (non-linear, full int range under the count precondition), NewChannelMapping establishes the shape invariant, CheckKeyNotExist returns exactly 'quota not exhausted' (map-iteration loops with counting invariants), AddKeyValue preserves shape and balance (no channel serves more than averageCnt; injective when equal), assigns the requested pair and never changes an existing assignment; CheckKeyExist / GetMapKey / GetMapValue / UsingSourceKey equal their specs.",
    note="Trusted: four cardinality axioms (cntEmpty, cntAddKey, cntStoreOutside, cntStoreInside), map iteration visits < 2^56 keys. Call sites in replicateChannelManager (channelLock discipline) not yet under contract; liveness of the wait/forward rendez-vous is out of reach.",
    design="3 (C16)"),
+ "C18": dict(
+   text="Deductive proof on the real server code that (1) request.GetTask returns a task with empty Milvus username/password/token and Kafka SASL username/password, and MetaCDC.Get / MetaCDC.List answer with such tasks only (List via the lo.Map model over its closure's contract); (2) GetRequestInfo - the text logged for every request - is produced from a copy of a create request with every credential field empty and never from the raw request envelope, without modifying the caller's request; (3) every value handed to zap.Any in the functions under contract (Create's deferred log, validCreateRequest, ReloadTask, the HTTP handler) is not a create request, connect parameter or task record with a non-empty credential (precondition on zap.Any). Four genuine defects (F9 SASL credentials in the request log line; F10 raw request logged on failed create; F11 connect parameters logged on a failed connection test; F13 stored task record logged by ReloadTask) were found by failing obligations, reproduced on the real code (log file inspected) and repaired by fix: commits.",
+   note="Trusted: json.Marshal/zap.Any record their argument in ghost state; what zap/JSON serialisation prints is exactly the value's fields. Only zap.Any is under a logging contract: credentials formatted into message strings or errors (fmt.Sprintf, err.Error() of client libraries) are not tracked. Not under contract: log statements of functions outside the ones listed (startInternal, newReplicateEntity, readers/writers in core), the dispatch-table assumption that handlers return response values. Fault sequences are covered per function (every return path), not as API histories.",
+   design="3 (C18)"),
+ "C19": dict(
+   text="Deductive proof on the real HTTP handler closure (getCDCHandler$1), handleRequest and handleError that every request produces exactly one JSON document (ghost counter of Encoder.Encode calls on the response writer) whose code is 200, 400, 405 or 500, with 405 exactly for non-POST methods and 400/500 exactly when no response value is produced; and on validCreateRequest / checkCollectionInfos that an accepted create request names exactly one well-formed target and exactly one collection specification (wildcard without positions, names within the configured length, RPC channel equal to the source channel) and that validation modifies nothing.",
+   note="Assumed: the eight requestHandlers entries return a non-nil response exactly when the error is nil and return response values (dyncall clauses); mapstructure/json/net/http are external (ghost state untouched). The side-effect-freedom of rejects inside MetaCDC.Create (duplicate-detection bookkeeping, revert defer) and checkDuplicateCollection are not yet under contract.",
+   design="3 (C19)"),
 }
 na_reason = "contracts for this property are not yet written in this round (see DESIGN.md section 10 for status)"
 all_ids = [json.loads(l)["id"] for l in open("properties.jsonl")]
